@@ -239,4 +239,51 @@ theorem r4_unrepaired_flag_after_range_leaves_namespace_locked :
       [.ea, .ea, .ea, .nsStore 1, .nsRead 1, .ea]
     Settled s ∧ ¬ AllEnabled s := by decide
 
+/-- **C01 (namespaces that go away and come back).** `live` is the set of matching namespaces that
+exist according to the namespace informer's own Added/Deleted events (a ghost: it is updated by the
+cluster's history alone, never by the guards of the callbacks). For every interleaving of the
+unlock with namespace add callbacks (two steps each) and namespace delete callbacks, over every
+history of namespaces appearing, disappearing and re-appearing under the same name: once
+everything has come to rest, every live namespace has informers registered in `VaryingInformers`
+and they are unlocked — so (informer level) every later change there reaches the hook. -/
+theorem live_namespaces_watched (st : List Bool) (nss : List Nat) (sched : List MAct) :
+    Settled (run true (initial st nss) sched) → LiveWatched (run true (initial st nss) sched) := by
+  have g := good_run _ sched (good_of_start (initial st nss) rfl rfl)
+  have t := tracks_run true _ sched (tracks_initial st nss)
+  generalize run true (initial st nss) sched = s at g t
+  rintro ⟨hd, hi⟩ n hn
+  have hk := t.watched n hn
+  simp only [keys, List.mem_map] at hk
+  obtain ⟨p, hp, rfl⟩ := hk
+  refine ⟨p, hp, rfl, ?_⟩
+  rcases g.finished hd p hp with h | h
+  · exact h
+  · rw [hi] at h; simp at h
+
+/-- The ghost is honest: an Added namespace is live whatever the callback decides to do … -/
+theorem added_namespace_is_live (fx : Bool) (s : MSt) (ns : Nat) :
+    ∃ s', step fx s (.nsStore ns) = some s' ∧ ns ∈ s'.live := by
+  by_cases h : s.varying.any (·.1 == ns) <;> simp [step, h]
+
+/-- … and a Deleted one is not, whatever the callback decides to do. -/
+theorem deleted_namespace_is_not_live (fx : Bool) (s s' : MSt) (ns : Nat)
+    (h : step fx s (.nsDel ns) = some s') : ns ∉ s'.live := by
+  simp only [step] at h
+  split at h
+  · simp at h
+  · split at h <;> (simp only [Option.some.injEq] at h; subst h; simp)
+
+/-- Non-vacuity: a namespace that existed at start is deleted after the unlock and created again
+under the same name (then another one appears): both are watched, unlocked. -/
+example :
+    let s := run true (initial [] [1])
+      [.ea, .ea, .ea, .ea, .ea, .nsDel 1, .nsStore 1, .nsRead 1, .nsStore 2, .nsRead 2, .nsDel 2]
+    Settled s ∧ LiveWatched s ∧ s.live = [1] ∧ s.varying = [(1, true)] ∧ s.cancel = [1] := by decide
+
+/-- What the invariant `Tracks` excludes: were the add callback to consult the cancel index and the
+delete callback to leave its entry behind (state reached: informers gone, cancel entry still there),
+a namespace that comes back would be ignored. Shown on a model state, not a schedule of the code. -/
+example : ¬ Tracks { varying := [], cancel := [1], live := [1] } := by
+  intro t; have := t.watched 1 (by simp); simp [keys] at this
+
 end ShellOp.MonitorEnable.C01
